@@ -1,6 +1,11 @@
 (* Extraction of the executable model.  ExtrOcamlBasic only: numbers stay the
-   extracted inductives (positive / N / Z), byte strings stay N lists. *)
+   extracted inductives (positive / N / Z), byte strings stay N lists.
+   One Extract Constant of ours: Coq's [List.rev] (quadratic: [rev l ++ [x]])
+   is replaced by OCaml's linear [Stdlib.List.rev], the same function on
+   finite lists; without it a 65535-byte line costs minutes in the driver. *)
 From Coq Require Import extraction.Extraction extraction.ExtrOcamlBasic.
+From Coq Require Import List.
 From HP Require Import Model.Driver.
 Extraction Language OCaml.
+Extract Constant List.rev => "(fun l -> Stdlib.List.rev l)".
 Separate Extraction Driver.handle.
